@@ -26,6 +26,7 @@ for n in $names; do
   done
   echo "$n [$how]$res"
   git -C $R reset -q --hard HEAD
+  /venv/bin/python harness/translate.py --all > /dev/null 2>&1      # no generated input of this change may leak into the next
 done
 cp $B/*.json evidence/; rm -rf $B
 /venv/bin/python harness/translate.py --all > /dev/null 2>&1
